@@ -1,4 +1,5 @@
 import ArgMapper.Model.Sig
+import ArgMapper.Proofs.Sig
 /-!
 # C14 — introspection mirrors the Go signature exactly
 Property theorems only (helper lemmas in `ArgMapper/Proofs/Sig.lean`).
@@ -16,7 +17,11 @@ theorem struct_values (d : Nat) (hd : d ≤ 1) (fs : List Field) :
     ∃ vs, newValueSetFromStruct d fs = .ok vs ∧ vs.labels = specStructLabels fs ∧
       vs.lifted = false ∧ vs.ptrs = d ∧
       ∀ v ∈ vs.values, ∃ f, fs[v.index]? = some f ∧ f.exported = true ∧ f.marker = false ∧ fieldLabel f = v.lab := by
-  sorry
+  refine ⟨_, newValueSetFromStruct_eq d hd fs, structVals_labels fs 0, rfl, rfl, ?_⟩
+  intro v hv
+  obtain ⟨_, f, h1, h2, h3⟩ := structVals_mem fs 0 v hv
+  simp only [keep, Bool.and_eq_true, Bool.not_eq_true'] at h2
+  exact ⟨f, by simpa using h1, h2.1, h2.2, h3⟩
 
 /-- names come from the tag if it gives one and from the field otherwise, always lower-cased,
 emptied by `typeOnly`; the subtype comes from the tag -/
@@ -27,46 +32,80 @@ theorem field_label (f : Field) :
         (fieldLabel f).name = lower (parseTag f.tag).nameOverride) ∧
     ((parseTag f.tag).typeOnly = false → (parseTag f.tag).nameOverride = "" →
         (fieldLabel f).name = lower f.name) := by
-  sorry
+  unfold fieldLabel
+  refine ⟨rfl, rfl, ?_, ?_, ?_⟩
+  · intro h; simp [h]
+  · intro h h'; simp [h, h']
+  · intro h h'; simp [h, h']
 
 /-- **C14_ptr_equiv** — pointer-to-struct forms report what struct forms report -/
 theorem ptr_equiv (fs : List Field) :
     (newValueSetFromStruct 1 fs).map (·.labels) = (newValueSetFromStruct 0 fs).map (·.labels) := by
-  sorry
+  rw [newValueSetFromStruct_eq 1 (by omega), newValueSetFromStruct_eq 0 (by omega)]; rfl
 
 /-- **C14_values_spec (positional)** — one type-only value per position, in order -/
 theorem positional_values (ps : List Param) (hne : ps ≠ []) (hns : ∀ p ∈ ps, p.isStruct = false) :
     ∃ vs, newValueSet ps = .ok vs ∧ vs.labels = specPositionalLabels ps ∧ vs.lifted = true ∧
       (vs.values.map (·.index)) = List.range ps.length := by
-  sorry
+  refine ⟨_, (newValueSet_eq_lifted ps hns hne).trans (newValueSetLifted_eq ps hns), ?_, rfl, ?_⟩
+  · apply List.ext_getElem?
+    intro j
+    simp [ValueSet.labels, specPositionalLabels, List.getElem?_mapIdx]
+    cases ps[j]? <;> rfl
+  · apply List.ext_getElem?
+    intro j
+    simp only [List.getElem?_map, List.getElem?_mapIdx]
+    by_cases h : j < ps.length
+    · simp [List.getElem?_range h, List.getElem?_eq_getElem h, liftedVal]
+    · have : ps[j]? = none := List.getElem?_eq_none (by omega)
+      simp [this, List.getElem?_eq_none (show (List.range ps.length).length ≤ j by simp; omega)]
 
 /-- **C14_error_stripped** — a final `error` result is excluded from the outputs, and only a
 final one -/
 theorem error_stripped (ins outs : List Param) (fs : FuncSig) (h : newFunc ins (outs ++ [.plain errorTy]) = .ok fs) :
     newValueSet outs = .ok fs.output ∧ fs.hasErr = true := by
-  sorry
+  have := newFunc_ok h
+  simpa [lastIsErr_concat_error] using this
 
 theorem no_error_kept (ins outs : List Param) (fs : FuncSig) (h : newFunc ins outs = .ok fs)
     (hl : ∀ p, outs.getLast? = some p → p.isStruct = true ∨ p.ty ≠ errorTy) :
     newValueSet outs = .ok fs.output ∧ fs.hasErr = false := by
-  sorry
+  have := newFunc_ok h
+  simpa [lastIsErr_false outs hl] using this
 
 /-- **C14_rejects** — marker structs mixed with other parameters and doubly indirected marker
 structs are rejected at construction -/
 theorem rejects_mix (ps : List Param) (hlen : 2 ≤ ps.length) (hs : ∃ p ∈ ps, p.isStruct = true) :
     newValueSet ps = .error .mix := by
-  sorry
+  obtain ⟨p, hp, hps⟩ := hs
+  have hl : newValueSet ps = newValueSetLifted ps := by
+    unfold newValueSet
+    split
+    · simp at hlen
+    · simp at hlen
+    · rfl
+  rw [hl]
+  unfold newValueSetLifted
+  have : ps.any Param.isStruct = true := List.any_eq_true.mpr ⟨p, hp, hps⟩
+  simp [this]
 
 theorem rejects_double_pointer (t d : Nat) (fs : List Field) (hd : 2 ≤ d)
     (hm : (Param.struct t d fs).isStruct = true) :
     newValueSet [.struct t d fs] = .error .ptrDepth := by
-  sorry
+  unfold newValueSet
+  simp only [hm, if_true]
+  unfold newValueSetFromStruct
+  rw [if_pos (by omega)]
 
 /-- non-vacuity: a struct with a renamed, a type-only, an unexported and a subtype-tagged field -/
 example : (newValueSetFromStruct 1
     [markerField, ⟨"A", "", 0, true, false⟩, ⟨"b", "", 1, false, false⟩, ⟨"C", ",typeOnly", 2, true, false⟩,
      ⟨"E", "Renamed,subtype=s1", 4, true, false⟩]).map (·.labels) =
     .ok [⟨"a", 0, ""⟩, ⟨"", 2, ""⟩, ⟨"renamed", 4, "s1"⟩] := by
-  sorry
+  rw [newValueSetFromStruct_eq 1 (by omega)]
+  show Except.ok ((structVals 0 _).map (·.lab)) = _
+  rw [structVals_labels, specStructLabels, fieldLabel_eq_C]
+  apply congrArg Except.ok
+  decide +kernel
 
 end ArgMapper.C14
